@@ -474,3 +474,114 @@ TARGETS += [
     {"name": "c15_o3_q_commit_index_maintenance_set_on_new_node", "crate": "nervusdb-storage", "run": run_index("set-new")},
     {"name": "c15_o3_q_commit_index_maintenance_remove", "crate": "nervusdb-storage", "run": run_index("remove")},
 ]
+
+
+# ------------------------------------------------------------------------------------------------ failed commits (C08-O1)
+def _fault_all_or_nothing(mf, tier, aspect):
+    """C08-O1: a single I/O failure at any step of commit (each log append, the log fsync, the index-catalog flush, each node-table
+    update). Whenever commit then reports an error, nothing of the transaction may be visible in the running process: no published
+    run / labels, no index entry. (A partially applied node table is not demanded to be rolled back here: it is reachable only
+    through internal lookups by external id, no query observes it; the natively tried failures showed no visible effect.) The transaction creates one node with an extra label and sets an indexed
+    property on an existing node (so that every phase of commit does something)."""
+    fn = mf.find(r"engine\.rs[^>]*>::commit\(_1: WriteTxn")
+    fields = struct_fields("nervusdb-storage/src/engine.rs", "WriteTxn")
+    ix = {n: i for i, n in enumerate(fields)}
+    efields = struct_fields("nervusdb-storage/src/engine.rs", "GraphEngine")
+    eix = {n: i for i, n in enumerate(efields)}
+    B = lambda n, w=32: z3.BitVec(n, w)     # noqa: E731
+    txid, node, key, newv = B("txid", 64), B("node"), B("prop_key"), B("new_value")
+    created = B("created_node")
+    idx_name, idx_id, root0 = B("index_name"), B("index_id"), B("root_before", 64)
+    run_model = Struct("L0RunModel", {0: PyVec(), 1: PyVec(), 2: PyVec()})
+
+    def events(st):
+        return [e for e in st.env.get("$trace", []) if e[0] in ("insert", "delete", "flush")]
+    props = PyVec([Tup([node, key, newv])])
+
+    def m_props(ex, st, a, dst, callee):
+        return [(props if callee.endswith("::node_properties_for_wal") else PyVec(), [], None)]
+
+    def failing(name, okval):
+        def f(ex, st, a, dst, callee):
+            return [(("EV", (name,), okval), [], None), (("EV", (name + "-failed",), Enum("Err", [Opaque("io")])), [], name + " fails")]
+        return f
+    mods = [(r"^MemTable::(node_properties_for_wal|edge_properties_for_wal|removed_node_properties_for_wal|removed_edge_properties_for_wal)$", m_props),
+            (r"^IndexCatalog::flush$", failing("flush", Enum("Ok", [Tup([])]))),
+            (r"^IdMap::apply_create_node$", failing("idmap.create_node", Enum("Ok", [Tup([])]))),
+            (r"^IdMap::apply_add_label$", failing("idmap.add_label", Enum("Ok", [Tup([])])))] + index_models(idx_name, True, events) + models(run_model, True)
+    st = State()
+    st.pc.append(created != node)
+    eng = {i: Opaque("engine." + n) for i, n in enumerate(efields)}
+    eng[eix["index_catalog"]] = Struct("IndexCatalog", {0: Opaque("catalog-page"), 1: PyVec([Tup([idx_name, Struct("IndexDef", {0: idx_id, 1: Struct("PageId", {0: root0})})])])})
+    st.env["$engine"] = Struct("GraphEngine", eng)
+    txn = {i: Opaque("txn." + n) for i, n in enumerate(fields)}
+    txn[ix["engine"]] = Ref("$engine")
+    txn[ix["txid"]] = txid
+    txn[ix["created_nodes"]] = PyVec([Tup([B("ext_id", 64), B("created_label"), created])])
+    txn[ix["pending_label_additions"]] = PyVec([Tup([created, B("extra_label")])])
+    txn[ix["pending_label_removals"]] = PyVec()
+    st.env["_1"] = Struct("WriteTxn", txn)
+    vi = variant_index("nervusdb-storage/src/wal.rs", "WalRecord")
+    vi.update({"Insert": 0, "Update": 1, "Remove": 2})
+    ex = TraceExec(fn, mods, bound=6, mf=mf, inline=r"^$", variant_index=vi, max_paths=20000)
+    paths = ex.run("bb0", st)
+    failed, n, errs = [], 0, 0
+    PUBLISH = ("publish labels", "publish run", "txid++")
+    for p in paths:
+        if p.kind == "panic":
+            failed.append("commit can panic: %s" % str(p.info)[:70])
+            continue
+        if p.kind == "bound":
+            raise Unsupported("commit cut by the loop bound")
+        if p.kind != "return":
+            continue
+        if "label=None" in p.events or "no index" in p.events or "old=None" in p.events:
+            continue                    # keep the scenario in which every phase is active
+        n += 1
+        tr = p.st.env.get("$trace", [])
+        names = [e[0] if e[0] != "append" else "append:" + (e[1].variant if isinstance(e[1], Enum) else "?") for e in tr]
+        faults = [i for i, x in enumerate(names) if x.endswith("-failed")]
+        ok = isinstance(p.ret, Enum) and p.ret.variant == "Ok"
+        if not faults:
+            if not ok:
+                failed.append("commit fails although no I/O step failed")
+            continue
+        errs += 1
+        if len(faults) > 1:
+            failed.append("commit keeps going after an I/O failure (%s)" % [names[i] for i in faults])
+            continue
+        if ok:
+            failed.append("commit returns Ok although %s" % names[faults[0]])
+            continue
+        cut = faults[0]
+        what = names[cut].replace("-failed", "")
+        if aspect == "publication" and any(x in PUBLISH for x in names):
+            failed.append("commit reports an error (%s failed) but the run / labels were published or the transaction id advanced" % what)
+        if aspect == "index" and any(x in ("insert", "delete") for x in names[:cut]):
+            failed.append("commit reports an error but the index pages were already rewritten (index maintenance runs before the CommitTx record is "
+                          "written and synced): index lookups in the running process see the failed transaction")
+    if not errs:
+        raise Unsupported("no fault path explored (vacuous)")
+    res = {"paths": n, "queries": ex.queries, "solver_time_s": round(ex.solver_time, 3),
+           "sample": ["1 created node + 1 extra label + 1 indexed property SET on an existing node; one failure at any of: each log append, the log fsync, "
+                      "the catalog flush, each node-table update; %d fault paths" % errs],
+           "functions": ["engine::WriteTxn::commit"]}
+    if failed:
+        from .. import witness as W
+        reproduced, wit = None, []
+        if any("index pages were already rewritten" in f for f in failed):
+            rep, lines = W.run(["commit-fault", "index", "0"], fault_shim=True)
+            wit.append("replay `commit-fault index 0` (log fsync fails): %s" % " | ".join(l for l in lines if l.startswith("WITNESS"))[:500])
+            if rep:
+                reproduced = True
+        res.update({"status": "fail", "failed": sorted(set(failed)), "reason": "; ".join(sorted(set(failed)))[:600], "witness_text": sorted(set(failed))[:4] + wit,
+                    "reproduced": reproduced})
+    else:
+        res["status"] = "pass"
+    return res
+
+
+TARGETS += [
+    {"name": "c08_o1_q_failed_commit_publishes_nothing", "crate": "nervusdb-storage", "run": lambda mf, tier: _fault_all_or_nothing(mf, tier, "publication")},
+    {"name": "c08_o2_q_failed_commit_leaves_no_index_entries", "crate": "nervusdb-storage", "run": lambda mf, tier: _fault_all_or_nothing(mf, tier, "index")},
+]
